@@ -2,7 +2,7 @@ from registry_common import COMMON_ASSUME
 
 ENTRY = dict(
         title="One device object per controller address, for every arrival timing",
-        prop_modules=["C10"],
+        prop_modules=["C10", "C10Cancel"],
         design_ref="DESIGN.md section 6 / C10",
         technique="Lean 4 interleaving machine for get_device_entry and its callers (consumers and user get() calls for any number of "
                   "addresses under the one lock, class loading that completes or raises), mutual-exclusion / one-entry-per-address "
@@ -31,6 +31,12 @@ ENTRY = dict(
                    "tie is differential (thorough tier: every arrangement of feed groups of 1..4 frames x release position x 0..2 get() x 1..3 "
                    "consumers for one address, every sequence of 1..3 frames over three addresses x releases x get() positions).",
         clauses={
+            "the task creating the entry is cancelled while the class loading is pending (a user's get_device_entry() under wait_for, protocol.cancel_tasks() + a second connection): the address is not blocked, later frames from it reach the one device object":
+                "theorem (C10Cancel: cancelled_creator_does_not_block - at any point of any schedule of moves and cancellations the lock is free at once after the creator is cancelled and the next consumer for the address returns with the entry within three of its own moves, its frame handled by it; "
+                "single_device_with_cancels / handled_by_the_entry_with_cancels - one object per address, created and set up once, every handled frame handled by the entry, for all schedules with cancellations (Proofs/EntryCancel.inv_cancel: the invariant survives the cancellation); "
+                "unreleased_lock_blocks - contrast: a lock not released on cancellation blocks the address for ever) "
+                "+ correspondence (harness/c10_cancel.py: the cancellation on a real AsyncProtocol with the import held, the executor job's future cancelled with its awaiter as run_in_executor's is, then 1..3 later frames on the same / a second connection; "
+                "judged by the statement on the observation - one object, every due frame handled once by it, set-up once, get() callers, no consumer lost; AND compared: the snapshot after EVERY event (pending imports, objects created, set-ups, announcements, (frame, object) handled, get() results) equals the one of the cancel machine EntryCancel.replayC (driver op c10c <consumers> <cr> <events>; replayC_states_ok: every state that replay goes through satisfies the invariant))",
             "at most one create per address, all schedules, any number of addresses": "theorem (per_address_single_device)",
             "every caller (consumer, user get()) obtains the same object at every time": "theorem (per_address_single_device, single_device, entry_is_stable, same_object_at_every_time)",
             "the same object through EVERY public way to obtain the device (protocol.data[name], get_nowait, attribute access, a subscribed callback, get / wait_for + read, the consumer's own), at every time":
@@ -47,12 +53,15 @@ ENTRY = dict(
             "the machine describes protocol.py / asyncio.Lock is mutual exclusion": "correspondence (trace inclusion on enumerated schedules)",
         },
         assumptions=COMMON_ASSUME + [
+            "cancel machine: every creator starts its own class loading (helpers/factory._import_module calls run_in_executor on each call; no shared future) - carried by the c10_cancel correspondence, not by translation; a cancellation is modelled only while the creator awaits the class loading",
             "a consumer task handling several frames in turn is modelled as several non-overlapping callers; the machine allows every overlap, "
             "so the number of consumer tasks is over-approximated (theorems hold for any number)",
             "device-class loading is the only suspension inside the lock besides the dispatch callbacks; both are separate machine moves",
             "final_ok speaks about the driver's FIFO settle policy (passes until no caller can move); fairness of the real event loop is exercised, not proved",
         ],
         public_routes={
+            "await protocol.get_device_entry(DeviceType) called by the user (and cancelled, as by asyncio.wait_for, while the class loading is pending)": "driven + judged (c10_cancel: U / XU events)",
+            "protocol.cancel_tasks() (TaskManager) while a consumer awaits the class loading, then connection_established again": "driven + judged (c10_cancel: XT event; the frames in the cancelled consumers' hands are dropped by the cancellation and excused)",
             "AsyncProtocol.connection_established(reader, writer)": "driven + compared (every case; again on every reconnect event)",
             "AsyncProtocol.connection_lost() via end of stream -> on_connection_lost callbacks": "driven + compared (reconnect event at every position: plain callback AND Connection._reconnect of a Connection object owning the protocol, i.e. what open_tcp_connection / open_serial_connection(protocol=..., reconnect_on_failure=True) return)",
             "get(name)": "driven + compared (get() at every position; result object per call in every snapshot)",
